@@ -182,6 +182,37 @@ def run(ctx):
                       "the positional list grows at line %s without the comparison with allowed_positionals_ on that path: more positionals than accepted are taken" % e.get("ln"),
                       (fn, e.get("ln")), detail={"facts": [logic.show(x) for x in st]})
         ctx.need("R12.3", "feasible appends to the positional list", nfeasible, 1)
+        # a whole range appended in one go (std::copy / std::transform into back_inserter(list), list.insert(list.end(), a, b)): the limit test in
+        # front of it has to count the positionals collected so far, i.e. it mentions the list's size() together with the accepted number
+        for bid, i, e in fn.roots():
+            if bid not in pl.IN:
+                continue
+            for n in walk(e["expr"], into_sc=False):
+                if n.get("k") != "call":
+                    continue
+                nm0 = n.get("name") or ""
+                bulk = False
+                if nm0 in ("std::copy", "std::transform", "std::move", "std::copy_n", "std::copy_if", "std::remove_copy_if", "std::transform_if"):
+                    for a in n.get("args", []):
+                        au = ir.unwrap(a)
+                        if isinstance(au, dict) and au.get("k") == "call" and (au.get("name") or "") in ("std::back_inserter", "std::inserter", "std::front_inserter") and au.get("args") \
+                                and fmt(ir.unwrap(au["args"][0])) in (pl.positionals, "this->" + pl.positionals):
+                            bulk = True
+                elif short(nm0) in ("insert", "assign", "append_range", "insert_range") and n.get("this") is not None and fmt(ir.unwrap(n["this"])) in (pl.positionals, "this->" + pl.positionals) \
+                        and len([a for a in n.get("args", []) if not (isinstance(a, dict) and a.get("k") == "defarg")]) >= 2:
+                    bulk = True
+                if not bulk:
+                    continue
+                doms = []
+                dom = cfg.dominators(fn)
+                for b2 in dom.get(bid, ()):
+                    c2 = fn.term(b2).get("cond")
+                    if c2 is not None and b2 != bid:
+                        doms.append(fmt(c2))
+                counted = any(("%s.size()" % pl.positionals) in s0 and "allowed_positionals_" in s0 for s0 in doms)
+                ctx.check(counted, "R12.3", fn, "range-append-under-limit@%s" % _rel(fn, e),
+                          "the positional list grows by a whole range at line %s (%s) and no test in front of it compares %s.size() with allowed_positionals_: positionals collected before are not "
+                          "counted, more than accepted are taken" % (e.get("ln"), fmt(n)[:60], pl.positionals), (fn, e.get("ln")), why_ok="dominated by a test over %s.size() and the accepted number" % pl.positionals)
         # the limit guard's other edge raises parsing_error
         guards = []
         for b in pl.body:
